@@ -424,6 +424,40 @@ pub fn compare_engine(
     (d, s, g.map(|x| x.0))
 }
 
+/// What the comparison needs from a subject: the engine, or a blocker fed rule by rule.
+pub trait NetSubject {
+    fn ask(&self, req: &Request) -> adblock::blocker::BlockerResult;
+    fn csp(&self, req: &Request) -> Option<String>;
+    fn ask_subset(&self, req: &Request, previously_matched: bool, force_exceptions: bool) -> adblock::blocker::BlockerResult;
+}
+impl NetSubject for adblock::Engine {
+    fn ask(&self, req: &Request) -> adblock::blocker::BlockerResult {
+        self.check_network_request(req)
+    }
+    fn csp(&self, req: &Request) -> Option<String> {
+        self.get_csp_directives(req)
+    }
+    fn ask_subset(&self, req: &Request, p: bool, f: bool) -> adblock::blocker::BlockerResult {
+        self.check_network_request_subset(req, p, f)
+    }
+}
+/// A blocker that started empty and received its rules through `Blocker::add_filter`.
+pub struct Incremental {
+    pub b: adblock::blocker::Blocker,
+    pub res: adblock::resources::ResourceStorage,
+}
+impl NetSubject for Incremental {
+    fn ask(&self, req: &Request) -> adblock::blocker::BlockerResult {
+        self.b.check(req, &self.res)
+    }
+    fn csp(&self, req: &Request) -> Option<String> {
+        self.b.get_csp_directives(req)
+    }
+    fn ask_subset(&self, req: &Request, p: bool, f: bool) -> adblock::blocker::BlockerResult {
+        self.b.check_parameterised(req, &self.res, p, f)
+    }
+}
+
 pub fn compare_engine_active(
     e: &adblock::Engine,
     active: &[&Rule],
@@ -431,10 +465,20 @@ pub fn compare_engine_active(
     orig_url: &str,
     store: &[ResSpec],
 ) -> (Option<String>, SpecOut, Option<(crate::net::Verdict, Option<BTreeSet<String>>)>) {
+    compare_subject_active(e, active, req, orig_url, store)
+}
+
+pub fn compare_subject_active<S: NetSubject>(
+    e: &S,
+    active: &[&Rule],
+    req: &Request,
+    orig_url: &str,
+    store: &[ResSpec],
+) -> (Option<String>, SpecOut, Option<(crate::net::Verdict, Option<BTreeSet<String>>)>) {
     let spec = spec_check_active(active, req, orig_url, store);
     let got = crate::util::catch(|| {
-        let r = e.check_network_request(req);
-        let c = e.get_csp_directives(req);
+        let r = e.ask(req);
+        let c = e.csp(req);
         (crate::net::Verdict::of(&r), crate::net::csp_set(&c))
     });
     match got {
@@ -451,7 +495,7 @@ pub fn compare_engine_active(
             if d.is_none() && spec.verdict.hits > 0 && req.is_supported {
                 let exp = spec_subset(&spec);
                 for (k, (prev, force)) in [(true, false), (false, true)].iter().enumerate() {
-                    match crate::util::catch(|| crate::net::Verdict::of(&e.check_network_request_subset(req, *prev, *force))) {
+                    match crate::util::catch(|| crate::net::Verdict::of(&e.ask_subset(req, *prev, *force))) {
                         Err(loc) => d = Some(format!("subset-panic@{}", loc)),
                         Ok(g) => {
                             if !(exp[k].0.accepts(&g.matched) && exp[k].1.accepts(&g.important) && exp[k].2.accepts(&g.exception)) {
